@@ -15,6 +15,10 @@ import json
 import os
 import sys
 
+import warnings
+
+warnings.simplefilter("ignore")  # urwid's layout warnings (GridFlowWarning, PaddingWarning, ...) are not findings
+
 HERE = os.path.dirname(os.path.abspath(__file__))
 sys.path.insert(0, HERE)
 
